@@ -618,7 +618,7 @@ func (*Catalog) enumDirectiveToUserRule(d *directive.Directive, e *enum.Enum) (*
 		r.Children = append(r.Children, Rule{
 			TokenType:   RuleTokenType(v.Type.ToTokenType()),
 			ScalarValue: v.Value.Unquote().String(),
-			Note:        v.Comment,
+			Note:        Note(v.Comment),
 		})
 	}
 
